@@ -268,7 +268,7 @@ def run(tier: str, seed: int) -> int:
     for i in range(n):
         strategy = "client" if i % 5 != 4 else "graphqlschema"
         # (overlapping interfaces with inline fragments on them make several abstract types meet in one selection: one more place where sets are iterated)
-        kw: Dict[str, Any] = {"strategy": strategy, "tier": tier, "dirty": ["frag.many"] if i % 2 == 0 else (["frag.inline.on_interface"] if i % 4 == 1 else [])}
+        kw: Dict[str, Any] = {"strategy": strategy, "tier": tier, "dirty": ["frag.many"] if i % 2 == 0 else (["frag.inline.on_interface"] if i % 8 != 7 else [])}
         if strategy == "client":
             kw["plugins"] = PLUGIN_SETS[i % len(PLUGIN_SETS)]
             kw["comments"] = ["none", "stable"][i % 2]
@@ -279,6 +279,7 @@ def run(tier: str, seed: int) -> int:
             kw["target"] = ["schema_out.py", "schema_out.graphql", "schema_out.gql"][i % 3]
         c = cw.make_case(seed, i, **kw)
         c["dirty"] = kw["dirty"]
+        c["max_doc_chars"] = 20000  # few cases, real subprocesses: larger documents (more set-iteration sites per run) are affordable here
         cases.append(c)
     with ThreadPoolExecutor(max_workers=core.WORKERS) as ex:
         for case, res in zip(cases, ex.map(one_case, cases)):
